@@ -9,6 +9,17 @@ C10, receiving direction: what a generated ACK frame says is true of what was re
 namespace GmQuic.Props.C10
 open GmQuic.RcvdJournal GmQuic.Pn
 
+/-- The literals of `gen_ack_frame_util`'s capacity arithmetic that the model spells out (`min_len = 1 + … + 1`,
+`first_range.saturating_sub(1)`, the fold's initial `(1, 0, false)` and restart `(1, 0, _)`, the `- 1` corrections of gap and
+ack, the `+ 1` steps, the strict test of the last range) are the ones the source has NOW (`Gen/AckConsts.lean`, regenerated
+by `xlate/gen_ackconsts.py` on every run; the boundaries of `range_count_size_increment` are not pinned but used by the
+model directly, so `ack_fits` is re-proved against them).  `ackLastSpare` may be 1 (`capacity > size`) or 0 (`>=`). -/
+theorem gen_ack_literals_match_source :
+    GmQuic.Gen.ackMinLenType = 1 ∧ GmQuic.Gen.ackMinLenCount = 1 ∧ GmQuic.Gen.ackFirstSub = 1 ∧
+    GmQuic.Gen.ackFoldGap0 = 1 ∧ GmQuic.Gen.ackFoldAck0 = 0 ∧ GmQuic.Gen.ackNewGap = 1 ∧ GmQuic.Gen.ackNewAck = 0 ∧
+    GmQuic.Gen.ackGapSub = 1 ∧ GmQuic.Gen.ackAckSub = 1 ∧ GmQuic.Gen.ackGapStep = 1 ∧ GmQuic.Gen.ackAckStep = 1 ∧
+    GmQuic.Gen.ackLastSpare ≤ 1 := by decide
+
 /-- **ack_largest_is_requested**: an `Ok` frame carries the requested largest number and delay. -/
 theorem ack_largest_is_requested (ops : List Op) (pn largest delay cap : Nat) (f : AckFrame)
     (h : (genAck (run ops) pn largest delay cap).2 = .ok f) : f.largest = largest ∧ f.delay = delay := by
